@@ -94,7 +94,9 @@ class FunctionCase:
         self.imprecise = 0
         self.mapping: Optional[dict] = None
         self.out_sym = None
+        self.mapped_from_source = False
         self._map()
+        self._map_from_source(mod)
 
     def _map(self) -> None:
         if self.why or self.law is None:
@@ -121,6 +123,92 @@ class FunctionCase:
         if out not in free:
             return
         self.mapping, self.out_sym = m, out
+
+    def _map_from_source(self, mod: Any) -> None:
+        """second way to the parameter <-> symbol correspondence, for functions whose guards are
+        dimensions rather than symbols: the function's own substitution ``.subs({symbol: param_})``
+        (or ``.subs(symbol, param_)``) and the symbol it solves the law for.  Only plain
+        name-to-name substitutions are accepted; anything else leaves the function unmapped."""
+        import ast
+        import inspect
+        import textwrap
+        if self.mapping is not None or self.why or self.law is None:
+            return
+        if self.law.atoms(sp.Derivative, sp.Integral, sp.Sum, sp.core.function.AppliedUndef) or any(
+                type(a).__name__ in ("IndexedSum", "IndexedProduct") for a in sp.preorder_traversal(
+                self.law)):
+            return
+        try:
+            tree = ast.parse(textwrap.dedent(inspect.getsource(self.spec["inner"])))
+        except (OSError, TypeError, SyntaxError):
+            return
+
+        def module_symbol(node: ast.AST) -> Any:
+            try:
+                obj = eval(compile(ast.Expression(node), "<map>", "eval"), vars(mod))  # names only
+            except Exception:  # pylint: disable=broad-except
+                return None
+            return obj if isinstance(obj, sp.Symbol) else None
+
+        def plain(node: ast.AST) -> bool:
+            return isinstance(node, ast.Name) or (isinstance(node, ast.Attribute) and plain(
+                node.value))
+
+        names = {p.name for p in self.params if p.kind != "default"}
+        m: dict[str, Any] = {}
+        out_sym = None
+        for node in ast.walk(tree):
+            if not isinstance(node, ast.Call) or not isinstance(node.func, ast.Attribute):
+                if isinstance(node, ast.Call) and isinstance(node.func, ast.Name) and \
+                        node.func.id == "solve" and len(node.args) >= 2 and plain(node.args[1]):
+                    cand = module_symbol(node.args[1])
+                    if cand is not None:
+                        if out_sym is not None and cand != out_sym:
+                            return
+                        out_sym = cand
+                continue
+            if node.func.attr != "subs":
+                continue
+            pairs: list[tuple[ast.AST, ast.AST]] = []
+            if len(node.args) == 1 and isinstance(node.args[0], ast.Dict):
+                pairs = list(zip(node.args[0].keys, node.args[0].values))  # type: ignore[arg-type]
+            elif len(node.args) == 2:
+                pairs = [(node.args[0], node.args[1])]
+            for k, v in pairs:
+                if k is None or not plain(k):
+                    return
+                sym = module_symbol(k)
+                if isinstance(v, ast.Name) and v.id in names:
+                    if sym is None or v.id in m and m[v.id] != sym:
+                        return
+                    m[v.id] = sym
+                elif sym is not None and sym in self.law.free_symbols:
+                    return  # a law symbol replaced by something that is not a bare parameter
+        if out_sym is None:
+            # `law.rhs` style: the left-hand side is the result
+            src = ast.unparse(tree)
+            if (".rhs" in src) and isinstance(self.law.lhs, sp.Symbol):
+                out_sym = self.law.lhs
+        if out_sym is None or set(m) != names or out_sym in m.values():
+            return
+        if any(p.kind not in ("quantity", "number", "int") for p in self.params if p.kind !=
+                "default"):
+            return
+        if len(set(m.values())) != len(m) or out_sym not in self.law.free_symbols:
+            return
+        if not (set(m.values()) | {out_sym}) >= set(self.law.free_symbols):
+            return
+        self.mapping, self.out_sym = m, out_sym
+        self.mapped_from_source = True
+        # an unguarded `float` parameter that stands for a dimensional symbol takes a quantity
+        for prm in self.params:
+            if prm.kind == "number" and prm.decl is None and prm.name in m:
+                try:
+                    dv = dims.of_dimension(m[prm.name].dimension)
+                except Exception:  # pylint: disable=broad-except
+                    continue
+                if isinstance(dv, dims.DimVec) and not dv.symbolic and not dv.dimensionless:
+                    prm.kind, prm.dim = "quantity", dv
 
     # -- one call ---------------------------------------------------------------------------------
     def call(self, scales: dict, spellings: dict, style: str = "keywords") -> tuple[str, Any, Any]:
